@@ -51,6 +51,8 @@ impl RocksDBTransaction {
 
     /// Commit the transaction.
     pub fn commit(&self) -> Result<()> {
+        #[cfg(ckb_verif)]
+        let _verif = crate::verif::WriteGuard::begin("commit");
         self.inner.commit().map_err(internal_error)
     }
 
